@@ -44,10 +44,13 @@ def run(tier):
     for r in recs:
         v = r["verdict"]
         rep.count_query(v)
+        rep.note_xsolver(r)
         if v == "equiv":
             decided += 1
             rep.solver_time += r.get("time", 0) or 0
             rep.add(r["key"], "ok")
+        elif v == "harness-error":
+            rep.harness_error(f"{r['key']}: {r.get('detail')}")
         elif v == "both-rejected":
             rep.add(r["key"], "ok", "both-rejected")
         elif v in ("value", "sort", "syntax", "meta-differs", "acceptance-differs"):
